@@ -152,9 +152,14 @@ func (rn *runner) attempt(h int, faults []fault) (res result) {
 	badAddr := false
 	byPos := map[pos]string{}
 	for _, f := range faults {
-		if f.Kind == "hook-fail" || f.Kind == "hook-fail-and-stop" {
+		if f.Kind == "hook-fail" || f.Kind == "hook-fail-and-stop" || f.Kind == "lib-hook-callback-fails" {
 			w.FailHookAt = f.At.N
 			w.FailHookStop = f.Kind == "hook-fail-and-stop"
+			if f.Kind == "lib-hook-callback-fails" {
+				// from here on (this attempt and the retry) the continuation is
+				// decided by the library's MakeGeneralBlockHook
+				w.LibHook = true
+			}
 			continue
 		}
 		if f.Kind == "hook-cancels-caller" {
@@ -270,7 +275,7 @@ func ints(l []int) string { return strings.Trim(fmt.Sprint(l), "[]") }
 
 func TestCheck(t *testing.T) {
 	r := vp.New("C04", "fault_enumeration",
-		"modes: {libp2p-HTTP discovery, plain HTTP, plain HTTP served under a URL path prefix and named by an http-path address} x {plain / retrying HTTP client (RetryableHTTPClient, one retry)} x {1, 2 addresses} x {explicit sync with queried head, with explicit head, announce-triggered} x {unsegmented, segment size 1, 2} x {nothing synced before, part of the chain synced before} on a chain of L advertisements. For each mode a fault-free reference run fixes the request positions; then every fault kind (HTTP 400/403/404/500/503, connection closed, declared length longer than body, corrupt body, substituted body, empty body, stalled response, caller cancellation during a request, hook failure per block in segmented mode (FailSync alone, and FailSync followed by SetNextSyncCid(cid.Undef)), caller cancellation from inside each block-hook call i.e. between requests and between segments, an address for which no client can be created) at every position, singly, in pairs over a reduced kind set (quick: 404 / 403 / 500 / connection closed / unusable address) and over the larger kind set (thorough), within one attempt and across attempt and retry, each followed by a fault-free retry on the same subscriber. Non-trivial: every faulted run. Distinct = distinct (mode, fault script).",
+		"modes: {libp2p-HTTP discovery, plain HTTP, plain HTTP served under a URL path prefix and named by an http-path address} x {plain / retrying HTTP client (RetryableHTTPClient, one retry)} x {1, 2 addresses} x {explicit sync with queried head, with explicit head, announce-triggered} x {unsegmented, segment size 1, 2} x {nothing synced before, part of the chain synced before} on a chain of L advertisements. For each mode a fault-free reference run fixes the request positions; then every fault kind (HTTP 400/403/404/500/503, connection closed, declared length longer than body, corrupt body, substituted body, empty body, stalled response, caller cancellation during a request, hook failure per block in segmented mode (FailSync alone, FailSync followed by SetNextSyncCid(cid.Undef), and an error returned by the callback of the library's MakeGeneralBlockHook), caller cancellation from inside each block-hook call i.e. between requests and between segments, an address for which no client can be created) at every position, singly, in pairs over a reduced kind set (quick: 404 / 403 / 500 / connection closed / unusable address) and over the larger kind set (thorough), within one attempt and across attempt and retry, each followed by a fault-free retry on the same subscriber. Non-trivial: every faulted run. Distinct = distinct (mode, fault script).",
 		"stalled responses and time-outs run in virtual time inside a synctest bubble; the horizon for 'no event will come' is 30 virtual minutes",
 		"a fault that the client masks (address fail-over, legacy path fallback) must leave all observations equal to the fault-free reference",
 		"the stream-reset retry branch needs a libp2p stream transport and is not driven",
@@ -374,6 +379,9 @@ func runMode(t *testing.T, r *vp.Recorder, m mode, thorough bool) {
 			// the same failure, after which the hook also says "no next
 			// segment" the documented way (SetNextSyncCid(cid.Undef))
 			singles = append(singles, fault{pos{"hook", -1, i}, "hook-fail-and-stop"})
+			// the failure is an error returned by the callback of the library's
+			// general hook for segmented sync (MakeGeneralBlockHook)
+			singles = append(singles, fault{pos{"hook", -1, i}, "lib-hook-callback-fails"})
 		}
 	}
 	// the caller (or the announcement) names an address no client can be made for
@@ -534,7 +542,7 @@ func oneScript(t *testing.T, r *vp.Recorder, m mode, ref result, s1, s2 []fault)
 			// a failure signalled by the block hook is never masked: once the
 			// failing hook call has happened the sync has to report an error
 			for _, f := range injected {
-				if (f.Kind == "hook-fail" || f.Kind == "hook-fail-and-stop") && len(res.hooks) > f.At.N {
+				if (f.Kind == "hook-fail" || f.Kind == "hook-fail-and-stop" || f.Kind == "lib-hook-callback-fails") && len(res.hooks) > f.At.N {
 					report("sync-succeeded-although-its-block-hook-failed-it", fmt.Sprintf("%s: hook call %d signalled a failure (FailSync), %d hook calls happened, and the sync reported success", name, f.At.N, len(res.hooks)))
 					return false
 				}
